@@ -122,6 +122,10 @@ pub struct ClientSpec {
 pub struct CredCase {
     pub clients: Vec<ClientSpec>,
     pub export_index: u16,
+    /// the last client carries the first one's user name (one user, a password per device): the
+    /// file then defines two pairs with that name, and both are pairs "written in the file"
+    #[serde(default)]
+    pub same_user: bool,
 }
 
 pub fn credentials_doc(clients: &[ClientSpec]) -> String {
@@ -165,7 +169,7 @@ impl Suite for CredentialsSuite {
         "credentials-file"
     }
     fn rule(&self) -> String {
-        "1-4 clients whose user names and passwords are drawn from all Unicode scalar values (biased to quotes, backslashes, '#', '=', edge whitespace, tabs, newlines, emoji), each written by a reference TOML renderer in a randomly chosen legal form (basic with escapes, \\uXXXX escapes, literal, multi-line basic / literal, quoted keys, comments, either key order) and checked against the independent `toml` parser first; the file is loaded the way the endpoint does (toml::from_str::<Settings> with credentials_file); ground truth is the generated string: get_clients() must equal the pairs, RegistryBasedAuthenticator must pass exactly base64(user:pass) of each pair and reject a trimmed / de-quoted variant, and client_config::build(..).compose_toml() must carry the same pair; non-trivial = a value containing a quote, backslash, escape, or edge whitespace".into()
+        "1-4 clients (in one case in four the last one repeats the first one's user name with a password of its own: both pairs are written in the file and both must be accepted) whose user names and passwords are drawn from all Unicode scalar values (biased to quotes, backslashes, '#', '=', edge whitespace, tabs, newlines, emoji), each written by a reference TOML renderer in a randomly chosen legal form (basic with escapes, \\uXXXX escapes, literal, multi-line basic / literal, quoted keys, comments, either key order) and checked against the independent `toml` parser first; the file is loaded the way the endpoint does (toml::from_str::<Settings> with credentials_file); ground truth is the generated string: get_clients() must equal the pairs, RegistryBasedAuthenticator must pass exactly base64(user:pass) of each pair and reject a trimmed / de-quoted variant, and client_config::build(..).compose_toml() must carry the same pair; non-trivial = a value containing a quote, backslash, escape, or edge whitespace".into()
     }
     fn strategy(&self, _: Tier) -> BoxedStrategy<CredCase> {
         let client = (secret_strategy(), secret_strategy(), form_strategy(), form_strategy(), 0u8..4).prop_map(
@@ -177,12 +181,19 @@ impl Suite for CredentialsSuite {
                 layout,
             },
         );
-        (prop::collection::vec(client, 1..=4), any::<u16>())
-            .prop_map(|(mut clients, export_index)| {
-                // user names identify clients: keep them distinct
+        (prop::collection::vec(client, 1..=4), any::<u16>(), prop::bool::weighted(0.25))
+            .prop_map(|(mut clients, export_index, same_user)| {
+                // distinct user names, except for the one deliberate repetition
                 let mut seen = std::collections::BTreeSet::new();
                 clients.retain(|c| seen.insert(c.username.clone()));
-                CredCase { clients, export_index }
+                let same_user = same_user && clients.len() >= 2;
+                if same_user {
+                    let (u, f) = (clients[0].username.clone(), clients[0].uform);
+                    let last = clients.last_mut().unwrap();
+                    last.username = u;
+                    last.uform = f;
+                }
+                CredCase { clients, export_index, same_user }
             })
             .boxed()
     }
@@ -197,6 +208,9 @@ impl Suite for CredentialsSuite {
         if c.clients.iter().any(|x| tricky(&x.username) || tricky(&x.password)) {
             v.push("tricky-value");
             v.push("nontrivial");
+        }
+        if c.same_user {
+            v.push("one-user-two-passwords");
         }
         if c.clients.iter().any(|x| x.uform != Form::Basic || x.pform != Form::Basic) {
             v.push("non-basic-form");
@@ -290,7 +304,9 @@ impl Suite for CredentialsSuite {
         })?;
         ensure!(
             ev.get("username").and_then(|v| v.as_str()) == Some(who.username.as_str())
-                && ev.get("password").and_then(|v| v.as_str()) == Some(who.password.as_str()),
+                && (ev.get("password").and_then(|v| v.as_str()) == Some(who.password.as_str())
+                    // a user name written twice: the export carries one of the pairs of that name
+                    || (c.same_user && want.iter().any(|(u, p)| *u == who.username && ev.get("password").and_then(|v| v.as_str()) == Some(p.as_str())))),
             "export:credentials-differ",
             "exported client configuration carries {:?}:{:?}, configured {:?}:{:?}",
             ev.get("username"),
